@@ -165,13 +165,13 @@ func malformed(r *hutil.Rand, e *kev) Item {
 }
 
 type genState struct {
-	r      *hutil.Rand
-	seq    uint32
-	ord    int64
-	pid    int
-	gap    bool
-	shuf   bool
-	spare  []uint32
+	r     *hutil.Rand
+	seq   uint32
+	ord   int64
+	pid   int
+	gap   bool
+	shuf  bool
+	spare []uint32
 }
 
 func (g *genState) newEv(ses string, pid int) *kev {
